@@ -145,6 +145,8 @@ type Ref struct {
 	// reached through an (effective) @defer fragment - the deferred groups that start.
 	Groups []string
 	errAt  map[string]bool
+	// curField: "Type.field" of the resolver whose result is being completed
+	curField string
 	// DeferIgnored: @defer treated as plain (the undeferred reference run)
 }
 
@@ -478,7 +480,9 @@ func (r *Ref) field(obj *ast.Definition, objPath, path string, fd *ast.FieldDefi
 		}
 	}
 	outcome := "value"
+	r.curField = ""
 	if r.IsResolver(obj.Name, fd.Name) {
+		r.curField = obj.Name + "." + fd.Name
 		r.Calls = append(r.Calls, path+"|"+obj.Name+"."+fd.Name)
 		r.Positions = append(r.Positions, Position{Path: path, Kind: "resolver", GQLType: fd.Type.String(), Nilable: r.Nilable(fd.Type), List: fd.Type.Elem != nil, Abstract: fd.Type.Elem == nil && r.isAbstract(fd.Type.NamedType), Object: obj.Name + "." + fd.Name})
 		outcome = r.Plan.Get(path)
@@ -535,6 +539,7 @@ func (r *Ref) complete(t *ast.Type, objPath, path, fieldName, outcome string, fi
 		}
 		out := &Val{Kind: 'l'}
 		bad := false
+		listField := r.curField
 		for i := 0; i < n; i++ {
 			ep := elemPath(path, i)
 			var ev *Val
@@ -545,7 +550,7 @@ func (r *Ref) complete(t *ast.Type, objPath, path, fieldName, outcome string, fi
 				ev, _ = r.complete(t.Elem, objPath, ep, fieldName, "value", fields)
 			} else {
 				abstract := t.Elem.Elem == nil && r.isAbstract(t.Elem.NamedType)
-				r.Positions = append(r.Positions, Position{Path: ep, Kind: "element", GQLType: t.Elem.String(), Nilable: true, Abstract: abstract})
+				r.Positions = append(r.Positions, Position{Path: ep, Kind: "element", GQLType: t.Elem.String(), Nilable: true, Abstract: abstract, Object: listField})
 				switch eo := r.Plan.Get(ep); eo {
 				case "null":
 					if leaf && r.Quirks.ScalarElemErrorAtList {
